@@ -147,9 +147,13 @@ class IdProp(PropBase):
         gr = GG.to_y0(g, warm=warm)
         before = GG.snapshot(gr)
         Xc, Yc = set(X), set(Y)
+        import zlib
+        h = zlib.crc32(repr((case["g"], case["X"], case["Y"])).encode())
+        Xa = next(iter(X)) if (len(X) == 1 and h % 2) else X             # a single variable may be given as such (Variable | set[Variable])
+        Ya = next(iter(Y)) if (len(Y) == 1 and (h >> 1) % 2) else Y
         with TopoRecorder() as rec:
             try:
-                est = identify_outcomes(gr, X, Y)
+                est = identify_outcomes(gr, Xa, Ya)
                 code = 1 if est is None else 0
                 exc = None
             except Exception as ex:  # noqa: BLE001
